@@ -107,7 +107,7 @@ func listUses(p *Prog, root *types.Var) []listUse {
 func runReadOrder(c *Ctx, r *RuleRun) {
 	p := c.P
 	la := c.Locks()
-	search := p.Fn("", "DB", "search")
+	search := p.FnOr("", "DB", "search")
 	if search == nil {
 		r.Undecided("-", "DB.search", "", "anchor (*DB).search not found")
 		return
@@ -301,33 +301,63 @@ func runReadPublish(c *Ctx, r *RuleRun) {
 			}
 			r.Check(!split, fn, "insert and swap in one DB.mu region", p.Pos(instrPos(st)), "readers see the frozen memtable either as active or in immutables, never in neither",
 				"the insertion into DB.immutables and the replacement of DB.memtable are not in one DB.mu critical section: a reader in between misses the frozen memtable's keys")
-			// insert before the flusher is notified
-			sends := 0
-			eachInstr(f, func(ins ssa.Instruction) {
-				snd, ok := ins.(*ssa.Send)
-				if !ok {
-					return
-				}
-				if fv, _ := loadedField(snd.Chan); fv != flushC {
-					return
-				}
-				sends++
-				isInsert := func(i ssa.Instruction) bool {
-					for _, in := range inserts {
-						if i == in {
-							return true
-						}
-					}
-					return false
-				}
-				q := PathQuery{P: p, Fn: f, Avoid: isInsert, Target: func(i ssa.Instruction) bool { return i == ins }}
-				r.Check(q.FindPath() == nil, fn, "insert before notifying the flusher", p.Pos(instrPos(snd)), "the memtable is in DB.immutables before the flusher can see it",
-					"the frozen memtable is sent to the flusher before it is inserted into DB.immutables: the flusher can finish and try to remove an element that is not there yet")
-			})
-			if sends == 0 {
-				r.Viol(fn, "notify the flusher", p.Pos(instrPos(st)), "the frozen memtable is never handed to the flusher")
+		}
+	}
+	// insert before the flusher is notified: every send on flushC (in any function) is preceded, on every path from
+	// the entry of its function - or of the callers, if the function itself does not insert - by the insertion
+	isInsertCall := func(i ssa.Instruction) bool {
+		call, ok := i.(*ssa.Call)
+		if !ok {
+			return false
+		}
+		obj := p.ExtCallee(call)
+		if obj == nil || obj.Pkg() == nil || obj.Pkg().Path() != "container/list" || !(obj.Name() == "PushBack" || obj.Name() == "PushFront") {
+			return false
+		}
+		return p.containerRoot(call.Call.Args[0], 0) == imm
+	}
+	ins := NewMustDo(p, isInsertCall)
+	var preceded func(target ssa.Instruction, depth int) bool
+	preceded = func(target ssa.Instruction, depth int) bool {
+		f := target.Parent()
+		q := PathQuery{P: p, Fn: f, Avoid: ins.Instr, Target: func(i ssa.Instruction) bool { return i == target }}
+		if q.FindPath() == nil {
+			return true
+		}
+		if depth >= 3 {
+			return false
+		}
+		sites := p.CallersOf(f)
+		if len(sites) == 0 {
+			return false
+		}
+		for _, cs := range sites {
+			if !preceded(cs, depth+1) {
+				return false
 			}
 		}
+		return true
+	}
+	sends := 0
+	for _, f := range p.Funcs {
+		if !hasNonInitRole(la, f) {
+			continue
+		}
+		eachInstr(f, func(i ssa.Instruction) {
+			snd, ok := i.(*ssa.Send)
+			if !ok {
+				return
+			}
+			if fv, _ := loadedField(snd.Chan); fv != flushC {
+				return
+			}
+			sends++
+			r.Check(preceded(i, 0), p.FnName(f), "insert before notifying the flusher", p.Pos(instrPos(snd)), "the memtable is in DB.immutables before the flusher can see it",
+				"the frozen memtable is sent to the flusher before it is inserted into DB.immutables: the flusher can finish and try to remove an element that is not there yet")
+		})
+	}
+	if sends == 0 && n > 0 {
+		r.Viol("DB", "notify the flusher", "", "the frozen memtable is never handed to the flusher")
 	}
 	if n == 0 {
 		r.Undecided("-", "rotation", "", "no store to DB.memtable outside initialisation")
@@ -415,10 +445,10 @@ func runReadFlusher(c *Ctx, r *RuleRun) {
 
 func runReadHit(c *Ctx, r *RuleRun) {
 	p := c.P
-	search := p.Fn("", "DB", "search")
+	search := p.FnOr("", "DB", "search")
 	isSame := p.Fn("types", "", "IsSameKey")
 	valueFn := p.Fn("types", "", "Value")
-	slb := p.Fn("", "levelManager", "searchLowerBound")
+	slb := p.FnOr("", "levelManager", "searchLowerBound")
 	if search == nil || isSame == nil || valueFn == nil || slb == nil {
 		r.Undecided("-", "anchors", "", "DB.search / types.IsSameKey / types.Value / levelManager.searchLowerBound not found")
 		return
@@ -757,7 +787,7 @@ func runOracleRestart(c *Ctx, r *RuleRun) {
 		return
 	}
 	open := p.Fn("", "", "Open")
-	mrec, lrec := p.Fn("", "memtable", "recover"), p.Fn("", "levelManager", "recover")
+	mrec, lrec := p.FnOr("", "memtable", "recover"), p.FnOr("", "levelManager", "recover")
 	if open == nil || mrec == nil || lrec == nil {
 		r.Undecided("-", "Open/recover", "", "anchors not found")
 		return
@@ -1115,7 +1145,7 @@ func runCmpSib(c *Ctx, r *RuleRun) {
 		}
 		r.Check(s == ref, p.FnName(f), "step sequence", p.Pos(f.Pos()), s, fmt.Sprintf("the compactions disagree on their steps: %s does [%s], %s does [%s]", p.FnName(cs[0]), ref, p.FnName(f), s))
 		// older level is fed to the merge first: fetch(level deeper) before fetch(level shallower)
-		fetch := p.Fn("", "levelManager", "fetch")
+		fetch := p.FnOr("", "levelManager", "fetch")
 		var fetches []*ssa.Call
 		if fetch != nil {
 			fetches = callsTo(p, f, fetch)
